@@ -119,7 +119,7 @@ SPEC = {
         "position_count_rejections", "case_label_value", "const_initialiser_value", "template_argument_value",
         "template_argument_not_converted", "lod_property_value", "lod_property_complete", "lod_property_rejections",
         "enum_values_c_semantics", "enum_rejected_only_out_of_range", "enum_overflow_only_at_type_max", "enum_no_panic",
-        "binop_common_type_as_specified_partial", "binop_common_type_uint_enum_not_as_specified", "binop_common_type_literal_pairs"]],
+        "binop_common_type_as_specified_partial", "binop_common_type_enum_operand_as_specified", "binop_common_type_literal_pairs"]],
     "harness": "c13",
     "nontrivial": nontrivial,
     "finding_key": finding_key,
